@@ -11,6 +11,7 @@ everything plain), so that every oracle - which is computed from the plain value
     lists   list | tuple | dict-keys view (unique hashables) | np.ndarray (all str or all int)
     strs    str | np.str_ | a str subclass
     dicts   dict | types.MappingProxyType | collections.ChainMap | collections.UserDict
+    solver options equal to their documented default: passed | left out
 
 One-shot iterators are not produced (an argument that is iterated once per period would be exhausted).
 """
@@ -27,6 +28,10 @@ class StrSub(str):
 INT_KEYS = ('min_iter', 'max_iter', 'offset')
 FLOAT_KEYS = ('tol',)
 BOOL_KEYS = ('catch_first_error',)
+# the documented defaults, identical at every solve entry point (models, linkers, the Fortran engine): passing the default
+# explicitly and leaving the argument out denote the same call
+DEFAULTS = {'min_iter': 0, 'max_iter': 100, 'tol': 1e-10, 'offset': 0, 'failures': 'raise', 'errors': 'raise',
+            'catch_first_error': True}
 
 
 class Rep:
@@ -111,6 +116,8 @@ class Rep:
         """Solver options in other representations (same values)."""
         out = {}
         for key, v in (opts or {}).items():
+            if key in DEFAULTS and type(v) is type(DEFAULTS[key]) and v == DEFAULTS[key] and self._next(3) == 1:
+                continue                       # the default value: the argument is left out
             if key in INT_KEYS:
                 out[key] = self.int(v)
             elif key in FLOAT_KEYS:
